@@ -190,22 +190,24 @@ pub fn run(args: &Args, rep: &mut Report) {
         return;
     }
     let thorough = args.tier.is_thorough();
+    // under an interpreter (Miri) the same code paths with ~1/1000 of the inputs
+    let small = args.opts.contains_key("small");
     // directed witness of the known routing disagreement (smallest case), so that
     // the KNOWN-FINDING line does not depend on sampling
     if args.shard == 0 {
         check_routing(rep, 10, 10, 4);
     }
     // (a) every hash owned by this shard
-    let draws = if thorough { 64 } else { 4 };
+    let draws = if small { 1 } else if thorough { 64 } else { 4 };
     let mut h = args.shard as u32;
     while h <= 65_535 {
         check_hash(rep, &mut rng, h as u16, draws);
         rep.nontrivial(&("hash", h));
-        h += args.shards as u32;
+        h += if small { 997 * args.shards as u32 } else { args.shards as u32 };
     }
     rep.sample(json!({"kind": "id", "hash": 4242, "id": uuid_v7_with_partition_hash(4242).to_string()}));
     // (b) flag functions: zero, all-ones, every single-bit and two-bit pattern, random
-    if args.shard == 0 {
+    if args.shard == 0 && !small {
         check_flag(rep, Uuid::nil());
         check_flag(rep, Uuid::max());
         for i in 0..128 {
@@ -217,7 +219,7 @@ pub fn run(args: &Args, rep: &mut Report) {
             }
         }
     }
-    let n_rand = if thorough { 1 << 18 } else { 1 << 13 };
+    let n_rand = if small { 200 } else if thorough { 1 << 18 } else { 1 << 13 };
     for _ in 0..n_rand {
         let u = Uuid::from_u128((rng.next_u64() as u128) << 64 | rng.next_u64() as u128);
         check_flag(rep, u);
@@ -227,14 +229,15 @@ pub fn run(args: &Args, rep: &mut Report) {
     let mut p = 1 + args.shard as u16;
     while p <= 64 {
         for b in 1..=p {
-            for k in 0..(if thorough { 256 } else { 24 }) {
+            if small && (b > 3 && b + 2 < p) { continue; }
+            for k in 0..(if small { 9 } else if thorough { 256 } else { 24 }) {
                 let h = if k < 8 { [0u16, 1, p - 1, p, b, 65_535, 32_768, p.wrapping_mul(b)][k] } else { rng.next_u32() as u16 };
                 check_routing(rep, h, p, b);
             }
         }
         p += args.shards as u16;
     }
-    for _ in 0..(if thorough { 100_000 } else { 4_000 }) {
+    for _ in 0..(if small { 100 } else if thorough { 100_000 } else { 4_000 }) {
         let p = 1 + rng.below(65_535) as u16;
         let b = 1 + rng.below(p as u64) as u16;
         check_routing(rep, rng.next_u32() as u16, p, b);
